@@ -124,6 +124,17 @@ func newFrame(id string, ft FrameType, mt MessageType, plen uint32) []byte {
 	return f
 }
 
+// send hands a frame to the log loop. Once the stream has been closed nobody
+// receives frames any more: the frame is dropped, so that a body which is still
+// being read through its logging wrapper keeps returning what the underlying
+// body returns instead of blocking for good.
+func (s *Stream) send(f []byte) {
+	select {
+	case s.framec <- f:
+	case <-s.closec:
+	}
+}
+
 func (s *Stream) sendHeader(id string, mt MessageType, key, value string) {
 	kl := uint32(len(key))
 	vl := uint32(len(value))
@@ -134,7 +145,7 @@ func (s *Stream) sendHeader(id string, mt MessageType, key, value string) {
 	f = append(f, key[:kl]...)
 	f = append(f, value[:vl]...)
 
-	s.framec <- f
+	s.send(f)
 }
 
 func (s *Stream) sendData(id string, mt MessageType, i uint32, terminal bool, b []byte, bl int) {
@@ -149,7 +160,7 @@ func (s *Stream) sendData(id string, mt MessageType, i uint32, terminal bool, b 
 	f = append(f, byte(bl>>24), byte(bl>>16), byte(bl>>8), byte(bl))
 	f = append(f, b[:bl]...)
 
-	s.framec <- f
+	s.send(f)
 }
 
 // LogRequest writes an http.Request to Stream with an id unique for the request / response pair.
